@@ -179,6 +179,9 @@ func c03Finder(run *Run, j *histJob) {
 		case sp.Tag == "global-timer-lost-before-retry" && !r.Done:
 			sig = "C03:hang:global-timer-expired-unheard-before-retry"
 			what = "the global timer expires while a 5xx response is being processed (CAS lost), the response is then retried: the new attempt has no global timer and a silent upstream hangs the request"
+		case !r.Done && retryAfterGlobalExpiry(r):
+			sig = "C03:hang:global-timer-expired-unheard-before-retry"
+			what = "a retry started after the global time-out had expired unheard: the request outlives its global time-out"
 		case !r.Done && sp.retriedAfterPoolFailWithBody():
 			sig = "C03:hang:retry-after-connect-failure-with-body:no-global-timer"
 			what = "request with body whose first attempt failed to connect: the retry never arms the global time-out; the upstream stays silent and the request hangs past the configured time-out"
@@ -195,6 +198,22 @@ func c03Finder(run *Run, j *histJob) {
 	if (ri.Complete || r.Done) && (r.Gauge != 0 || r.Active != 0) && !(r.Done && !ri.Complete && !explained) {
 		run.Fail("C03:not-cleaned", fmt.Sprintf("exchange over but the stream is not cleaned: active gauge %+d, active streams %d", r.Gauge, r.Active), replay)
 	}
+}
+
+// a new attempt was started after the moment the global timer of the request must have fired
+func retryAfterGlobalExpiry(r *Result) bool {
+	gms, _ := r.Spec.effectiveTimeouts()
+	var sent int64 = -1
+	for _, x := range r.Rec {
+		if x.Kind == "up.new" {
+			if x.K == 0 {
+				sent = x.T
+			} else if sent >= 0 && x.T > sent+int64(gms+5)*1000 {
+				return true
+			}
+		}
+	}
+	return false
 }
 
 func countNew(r *Result) int {
